@@ -175,6 +175,21 @@ def run_real(torch, G, SpyLeaf, top):
         res['partial'] = getattr(e, '_partial', None)
         return res
     res['built'] = b
+    # construction is side-effect free: no generator is sampled while the composite is built, except the one documented
+    # draw of a StaticGenerator (its child, once)
+    under_static = set()
+
+    def mark(sp, inside):
+        if sp['op'] == 'leaf' and inside:
+            under_static.add(sp['id'])
+        for kd in kids_of(sp):
+            mark(kd, inside or sp['op'] == 'static')
+    mark(top['tree'], False)
+    res['construction'] = []
+    for lid, leaf in b.leaves.items():
+        want = 1 if lid in under_static else 0
+        if leaf.calls != want:
+            res['construction'].append(f'leaf L{lid} was sampled {leaf.calls} time(s) while the composite was constructed, expected {want}')
     raws = []
     res['interference'] = []
     for _ in range(top['calls']):
